@@ -189,6 +189,20 @@ func c05Sweep(c *vk.Ctx) bool {
 			return false
 		}
 	}
+	// a lattice over the allocated global unicast space: the first hextet of every RIR block in use
+	// (2001:: .. 2c0f::) x the second hextet in steps of 0x40, random below: a wrong block of /26 or
+	// shorter anywhere in there is hit
+	for _, h1 := range []int{0x2001, 0x2002, 0x2003, 0x2400, 0x2404, 0x2600, 0x2606, 0x2607, 0x2620, 0x2800, 0x2a00, 0x2a02, 0x2c00, 0x2c0f} {
+		for h2 := 0; h2 < 0x10000; h2 += 0x40 {
+			ip := make(net.IP, 16)
+			r.Read(ip)
+			ip[0], ip[1] = byte(h1>>8), byte(h1)
+			ip[2], ip[3] = byte(h2>>8), byte(h2)|ip[3]&0x3f
+			if !one(ip, "16-byte") {
+				return false
+			}
+		}
+	}
 	if !one(nil, "nil") || !one(net.IP{}, "empty") || !one(net.IP{1, 2, 3}, "3-byte") {
 		return false
 	}
